@@ -89,7 +89,15 @@ def _call(args):
     _T0[0] = time.time()
     signal.setitimer(signal.ITIMER_REAL, TICK, TICK)
     try:
-        return ("ok", case, fn(case))
+        res = fn(case)
+        if isinstance(res, dict) and res.get("outcome") == "budget" and res.get("violations") and not res.get("budget_is_verdict") and res.get("events", 0) > 50000:
+            # the simulation's step cap ended a run with heavy simulated network traffic (the cost
+            # of the network model, e.g. a long line in 1-byte segments): whatever the oracles say
+            # about the unfinished run is not a verdict.  (A run that exhausts the cap with hardly
+            # any traffic is tasks rescheduling themselves for ever - its violations stand.)
+            res["counters"] = dict(res.get("counters") or {}, **{"inconclusive.violations_dropped_on_step_budget": len(res["violations"])})
+            res["violations"] = []
+        return ("ok", case, res)
     except _Timeout:
         return ("timeout", case, None)
     except BaseException as e:  # noqa
